@@ -22,6 +22,7 @@ func init() {
 		Patterns:  []string{"./internal/filetransfer", "./internal/agent"},
 		Technique: "validated-value taint: backward path-flow from every file-system sink to the remote request fields, with the resolve-then-validate helper as the only barrier",
 		Explain: "Decides that every os.*/filepath.Walk path argument in the repository that is built from TransferMetadata.Path or BrowseRequest.Path is the value returned by a sanitiser (a function that calls the allow-list validator), that each sanitiser returns only values that derive from symlink resolution (filepath.EvalSymlinks) and that were passed, in normalised-then-resolved form, to the validator whose success guards the return, and that the validator returns nil only on a branch taken because an element of AllowedPaths matched. " +
+			"The tar extraction that a directory upload performs below the sanitised destination is judged by the C27 rule set, reported as C26.R9. " +
 			"Not decided: the resolver's algorithm itself, glob semantics of the matcher, check-to-use races, metadata of link targets shown by lstat/readlink-based listings, real paths that are not NFC-stable.",
 		Run: runC26,
 		SelfTests: []SelfTest{
@@ -152,6 +153,16 @@ func init() {
 				{File: st, Old: "\tif followFinal {\n\t\trealPath, err = resolvePath(normalizePath(path))\n\t} else {\n\t\trealPath, err = resolveParent(normalizePath(path))\n\t}\n", New: "\trealPath, err = locatePath(normalizePath(path), followFinal)\n"},
 				{File: st, Old: "// resolveParent is resolvePath for operations", New: "func locatePath(path string, followFinal bool) (string, error) {\n\tif !followFinal {\n\t\treturn resolveParent(path)\n\t}\n\treturn resolvePath(path)\n}\n\n// resolveParent is resolvePath for operations"},
 				{File: br, Old: "\trealPath, errResp := h.requirePath(req.Path, true)\n\tif errResp != nil {\n\t\treturn errResp\n\t}\n\n\tmode, err := parseOctalMode", New: "\trealPath, errResp := h.requirePath(req.Path, false)\n\tif errResp != nil {\n\t\treturn errResp\n\t}\n\n\tmode, err := parseOctalMode"},
+			}},
+			// ---- round 4: the extraction of a directory upload is part of C26 (R9)
+			{Name: "directory upload: only directory entries placed by their real location", ExpectRule: "C26.R9", ExpectKey: "C27.R3 filetransfer.ExtractTar os.OpenFile", Edits: []Edit{
+				{File: "internal/filetransfer/tar.go", Old: "\t\tisLink := header.Typeflag == tar.TypeSymlink || header.Typeflag == tar.TypeLink\n\t\ttargetPath, err = containedPath(realDest, targetPath, !isLink)\n", New: "\t\tisDir := header.Typeflag == tar.TypeDir\n\t\ttargetPath, err = containedPath(realDest, targetPath, isDir)\n"},
+			}},
+			{Name: "directory upload: only regular files placed by their real location", ExpectRule: "C26.R9", ExpectKey: "C27.R3 filetransfer.ExtractTar os.MkdirAll #1", Edits: []Edit{
+				{File: "internal/filetransfer/tar.go", Old: "\t\tisLink := header.Typeflag == tar.TypeSymlink || header.Typeflag == tar.TypeLink\n\t\ttargetPath, err = containedPath(realDest, targetPath, !isLink)\n", New: "\t\ttargetPath, err = containedPath(realDest, targetPath, header.Typeflag == tar.TypeReg)\n"},
+			}},
+			{Name: "directory upload: entries placed by their lexical path", ExpectRule: "C26.R9", ExpectKey: "C27.R1 filetransfer.ExtractTar", Edits: []Edit{
+				{File: "internal/filetransfer/tar.go", Old: "\t\ttargetPath, err = containedPath(realDest, targetPath, !isLink)\n\t\tif err != nil {\n\t\t\treturn err\n\t\t}\n", New: "\t\t_ = isLink\n"},
 			}},
 			{Name: "rewrite: empty-list test dropped (loop does not run)", Edits: []Edit{
 				{File: st, Old: "\tif len(h.cfg.AllowedPaths) == 0 {\n\t\treturn fmt.Errorf(\"no paths are allowed (allowed_paths is empty)\")\n\t}\n", New: ""},
@@ -481,6 +492,7 @@ func runC26(p *kit.Program, r *kit.Report) {
 	r.Rule("C26.R1", "validate what you use: a sanitiser returns only paths it passed to the validator, and the resolution that produced them started from the request path in the normalised form the validator judges")
 	r.Rule("C26.R2", "validate after resolution: every non-constant path a sanitiser returns derives from symlink resolution (filepath.EvalSymlinks) only, and the validator call on that resolved value succeeded on the way to the return")
 	r.Rule("C26.R3", "deny by default: the allow-list validator returns nil only on a branch taken because an element of AllowedPaths equals the wildcard or matched the validator's subject")
+	r.Rule("C26.R9", "directory uploads: inside the extraction that writes below a sanitised destination, every archive-derived path obeys the link-aware containment rules of C27 (containment-resolver result at every mutating call, link targets contained, a link-following call gets a provably fully resolved path under the entry-type conditions selecting it, separator-aware containment test); each obligation is keyed by the C27 rule and construct")
 	r.Rule("C26.R7", "validate at the time of use: a sanitised path that reaches a sink through shared state (a field of a heap object, a map held in one, a package variable) was written there within the same activation - later in the writing function, or in a function called after the write - never by an earlier event (frame, request)")
 	r.Rule("C26.R8", "a string-prefix comparison between the validator's subject and an allowed pattern (in the matcher and the functions it calls) uses a prefix that provably ends with the path separator; substring, suffix and case-insensitive comparisons do not relate a path to an allowed directory")
 	r.Rule("C26.R6", "the path returned by a sanitiser (or by a function that only passes sanitiser results on) is used only where the accompanying error/response was found nil, or is returned together with it: a failed sanitiser yields the empty path, which filepath.Clean turns into the working directory")
@@ -581,6 +593,7 @@ func runC26(p *kit.Program, r *kit.Report) {
 	r.Count("fs_sink_calls_in_repo", len(sinks))
 	nTainted, nSan, nCut, nFollow := 0, 0, 0, 0
 	parked := map[string]*c26Parked{}
+	requestFed := map[ssa.CallInstruction]bool{} // sink calls whose path comes from a request (sanitised or not)
 	for _, s := range sinks {
 		for _, ai := range s.args {
 			args := s.call.Common().Args
@@ -602,6 +615,9 @@ func runC26(p *kit.Program, r *kit.Report) {
 			res := q.Walk(args[ai])
 			nCut += res.Cut
 			pos := p.Pos(s.call.Pos())
+			if len(res.Sources) > 0 || len(res.Barriers) > 0 {
+				requestFed[s.call] = true
+			}
 			switch {
 			case len(res.Sources) > 0:
 				nTainted++
@@ -646,6 +662,27 @@ func runC26(p *kit.Program, r *kit.Report) {
 			}
 		}
 	}
+	// ---- R9: the tar extraction below a requested destination is judged by the C27 rule set
+	sub := kit.NewReport("C27", "embedded")
+	c27Analyse(p, sub, func(s c26SinkSite) bool { return requestFed[s.call] }, false)
+	nR9 := 0
+	for _, o := range sub.Obs {
+		key := o.Rule + " " + o.Key
+		switch o.Status {
+		case kit.Discharged:
+			nR9++
+			r.OK("C26.R9", key, o.Pos, "%s", o.Detail)
+		case kit.Violated:
+			nR9++
+			r.Violation("C26.R9", key, o.Pos, "%s; the destination of a directory upload is an allowed path, so the escape also leaves the allowed paths", o.Detail)
+		case kit.Undecided:
+			r.Undecided("C26.R9", key, o.Pos, "%s", o.Detail)
+		}
+	}
+	for _, n := range sub.Notes {
+		r.Note("R9: %s", n)
+	}
+	r.Count("extraction_obligations_below_requested_destination", nR9)
 	r.Count("sinks_fed_by_sanitiser", nSan)
 	r.Count("link_following_sinks_fed_by_sanitiser", nFollow)
 	var pkeys []string
